@@ -409,6 +409,8 @@ class GriffeLoader:
                     new_member.path if new_member.is_alias else new_member,  # type: ignore[arg-type]
                     lineno=alias_lineno,
                     endlineno=alias_endlineno,
+                    # Names imported by a type-guarded (or stubs-only) wildcard import are not available at runtime either.
+                    runtime=runtime_import,
                     parent=obj,  # type: ignore[arg-type]
                 )
                 # Special case: we avoid overwriting a submodule with an alias pointing to it.
